@@ -48,7 +48,7 @@ tvars == <<l, m, glog, parked, router, info, now, log, clean>>
 E == Trace[l]
 
 M0 == [st |-> "idle", due |-> 0, up |-> FALSE, stale |-> 0, race |-> FALSE, held |-> FALSE, fail |-> FALSE, can |-> FALSE, must |-> FALSE,
-       conn |-> "no", lastq |-> "", retired |-> {}, stable |-> FALSE, sawopen |-> FALSE, lost |-> FALSE, since |-> 0, carry |-> FALSE]
+       conn |-> "no", lastq |-> "", retired |-> {}, stable |-> FALSE, sawopen |-> FALSE, lost |-> FALSE, since |-> 0, carry |-> FALSE, upat |-> 0]
 
 TInit == /\ TLCSet(1, 0) /\ l = 1 /\ m = [p \in Peers |-> M0] /\ glog = <<>> /\ parked = FALSE /\ router = ""
          /\ BInit
@@ -128,7 +128,7 @@ TEv ==
          [] E.k = "Up" ->
               /\ glog' = glog
               /\ IF x.st = "ready" /\ ~x.up
-                   THEN m' = [m EXCEPT ![p].st = "live", ![p].up = TRUE, ![p].stable = FALSE, ![p].carry = FALSE]
+                   THEN m' = [m EXCEPT ![p].st = "live", ![p].up = TRUE, ![p].stable = FALSE, ![p].carry = FALSE, ![p].upat = t]
                    ELSE IF x.stale > 0
                      THEN \* the loop adopts a stream whose death it has already handled
                           /\ m' = [m EXCEPT ![p].up = TRUE, ![p].stale = @ - 1, ![p].stable = FALSE]
@@ -192,7 +192,9 @@ TSnap ==
                       [] x.st = "live" ->
                            /\ E.q[p] = "" => Report("P_X02f_Consistent", "no-entry", p, Cond(p), "")
                            /\ E.closed[p] => Report("P_X02f_Consistent", "closed-queue", p, Cond(p), E.q[p])
-                           /\ E.alive[p] # 1 => Report("P_X02f_Consistent", "live-streams", p, Cond(p), E.alive[p])
+                           \* the fake peer sees a stream one network latency after the node opened it: a backoff timer may fire at the
+                           \* very instant a step ends
+                           /\ (E.alive[p] # 1 /\ (E.t - x.upat > Slack \/ E.alive[p] > 1)) => Report("P_X02f_Consistent", "live-streams", p, Cond(p), E.alive[p])
                            /\ (E.q[p] \in x.retired) => Report("P_X02c_NotBefore", "queue-reused", p, Cond(p), E.q[p])
                            /\ (x.stable /\ x.lastq # "" /\ E.q[p] # x.lastq) => Report("P_X02f_Consistent", "queue-replaced", p, Cond(p), <<x.lastq, E.q[p]>>)
                       [] x.st = "wait" ->
